@@ -9,17 +9,28 @@ state of every dispatch task, results and virtual completion times of get()/wait
 History text (also corpus / replay format):   S<scripts> <op>*
     scripts : <cb>:<susp>:<k|a<c>>,...   callback function cb suspends <susp> times, returns None (k) or value+c
     op      : sub:<n>:<cb>[~] once:<n>:<cb>[~] unsub:<n>:<cb> unsubo:<n>:<sid> disp:<n>:<v>[!] get:<n>:<ticks|->[!]
-              rel:<i> settle adv:<t>
+              load:<n>=<v>,<n>=<v>..[!] rel:<i> settle adv:<t>
     `!` marks the other API flavour (disp!: a task awaiting dispatch() instead of dispatch_nowait;
-    get!: wait_for instead of get); `~`: the callback is subscribed behind a pass-everything filter (throttle /
-    debounce with threshold 0).  Callback functions with an odd id are BOUND METHODS (a new object per attribute
+    get!: wait_for instead of get; load!: a task awaiting load() instead of load_nowait).  A load is one dispatch per entry, in
+    dict order (always followed by `settle`): for the machine it is that many `disp` ops, and the op counter counts it so; `~`: the callback is subscribed behind a pass-everything filter (throttle /
+    debounce with threshold 0, chains of the two, custom with a constant-true predicate); `unsub:<n>:<cb>^`: unsubscribe by a NEW filter object around the raw callback.  Callback functions with an odd id are BOUND METHODS (a new object per attribute
     access); unsubscribe always passes the raw callback.  One tick = 0.5 s of virtual time.
+
+Subscribers registered THROUGH filter factories (two further sections, case texts `fr ...` / `chain ...`):
+    fr <filter> <ret> <call>*            one filter object (any factory, chains of two) around a scripted callback: what every
+                                         call RETURNS to its caller, vs `c13fr` (Filter.stepR) and vs the statement (a delivering
+                                         call returns what the wrapped callback returned, any other call None)
+    chain <f>/<ret>+<f>/<ret>... <call>* a real EventManager with these subscribers on one name, sequential dispatches (t@value),
+                                         a get() after each: awaited values, stored value, vs `c13chain` (dispatchChain) and the
+                                         statement (each callback's non-None result replaces the value for the next one)
+    filter / call / value syntax as in harness/c20.py; ret: k | a<sixteenths> | c<value> (falsy replacements 0, 0.0, False, '', [])
 """
 import asyncio
 from asyncio import events as aio_events
 import itertools
 import random
 import re
+import time
 
 from common import Result, driver_batch, load_corpus, use_repo
 import vloop
@@ -27,6 +38,8 @@ import vloop
 use_repo()
 from pyplumio import filters  # noqa: E402
 from pyplumio.helpers.event_manager import EventManager  # noqa: E402
+
+import c20 as F  # noqa: E402  (value / filter text <-> python objects, patched clock)
 
 TICK = 0.5
 
@@ -39,6 +52,8 @@ SHIFT = 11
 
 
 def _up(v):
+    if isinstance(v, float) and v == int(v):
+        v = int(v)                       # an aggregate filter hands on 0.0 + v
     return None if v is None else v + SHIFT
 
 
@@ -63,6 +78,20 @@ class Impl:
         self.dinfo = []                  # per dispatch: name, init value, op index of the spawn
         self.op_index = -1
         self.anomalies = []
+        self.other_tasks = []
+        self.spawn_op = None             # op index for the next dispatch task(s) created
+        loop.set_task_factory(self.task_factory)
+
+    def task_factory(self, loop, coro, **kw):
+        t = asyncio.Task(coro, loop=loop, **kw)
+        code = getattr(coro, "cr_code", None)
+        if code is not None and code.co_name == "dispatch" and coro.cr_frame is not None and coro.cr_frame.f_locals.get("self") is self.em:
+            loc = coro.cr_frame.f_locals
+            self.task_index[t] = len(self.dtasks)
+            self.dtasks.append(t)
+            self.dinfo.append(dict(name=loc["name"], init=loc["value"] + SHIFT, op=self.spawn_op))
+            self.spawn_op += 1
+        return t
 
     def ticks(self):
         return (self.loop.time() - self.t_base) / TICK
@@ -73,7 +102,7 @@ class Impl:
 
             async def f(v, cb=cb, susp=susp, ret=ret):
                 i = self.task_index.get(asyncio.current_task(), -1)
-                self.log.append((i, cb, v + SHIFT))
+                self.log.append((i, cb, _up(v)))
                 for _ in range(susp):
                     fut = self.loop.create_future()
                     self.pending[i] = (fut, cb)
@@ -97,16 +126,24 @@ class Impl:
         through (throttle / debounce with a zero threshold) -- for the event manager still the same callback"""
         if arg.endswith("~"):
             cb = int(arg[:-1])
-            if self.next_sid % 2:
+            # (aggregate(cb, 0) is NOT among them: while its callback is suspended a second call adds to the same sum)
+            k = self.next_sid % 5
+            if k == 4:
+                return filters.custom(self.fn(cb), lambda v: True)
+            if k == 0:
+                return filters.debounce(self.fn(cb), 0)
+            if k == 1:
                 return filters.throttle(self.fn(cb), 0)
-            return filters.debounce(self.fn(cb), 0)
+            if k == 2:
+                return filters.throttle(filters.debounce(self.fn(cb), 0), 0)
+            return filters.debounce(filters.throttle(self.fn(cb), 0), 0)
         return self.fn(int(arg))
 
     def op(self, text):
         self.op_index += 1
         w = text.split(":")
         k = w[0]
-        name = "n" + w[1] if len(w) > 1 and k not in ("rel", "adv") else None
+        name = "n" + w[1] if len(w) > 1 and k not in ("rel", "adv", "load") else None
         if k == "sub":
             self.em.subscribe(name, self.wrapped(w[2]))
             self.next_sid += 1
@@ -114,8 +151,13 @@ class Impl:
             self.once[self.next_sid] = self.em.subscribe_once(name, self.wrapped(w[2]))
             self.next_sid += 1
         elif k == "unsub":
-            # always by the RAW callback (for a bound method: a fresh, equal but not identical, object)
-            self.em.unsubscribe(name, self.fn(int(w[2])))
+            # by the RAW callback (for a bound method: a fresh, equal but not identical, object), or (`^`) by a NEW filter object
+            # around it: Filter.__eq__ makes it equal to the raw callback and to every filter around that callback
+            if w[2].endswith("^"):
+                raw = self.fn(int(w[2][:-1]))
+                self.em.unsubscribe(name, filters.on_change(raw) if self.op_index % 2 else filters.custom(filters.delta(raw), bool))
+            else:
+                self.em.unsubscribe(name, self.fn(int(w[2])))
         elif k == "unsubo":
             sid = int(w[2])
             if sid in self.once:
@@ -123,15 +165,24 @@ class Impl:
         elif k == "disp":
             other = w[2].endswith("!")
             v = int(w[2].rstrip("!"))
+            self.spawn_op = self.op_index
+            n_before = len(self.dtasks)
             if other:
-                t = self.loop.create_task(self.em.dispatch(name, v - SHIFT))
+                self.loop.create_task(self.em.dispatch(name, v - SHIFT))
             else:
-                before = set(self.em.tasks)
                 self.em.dispatch_nowait(name, v - SHIFT)
-                (t,) = set(self.em.tasks) - before
-            self.task_index[t] = len(self.dtasks)
-            self.dtasks.append(t)
-            self.dinfo.append(dict(name=name, init=v, op=self.op_index))
+            assert len(self.dtasks) == n_before + 1
+        elif k == "load":
+            other = text.endswith("!")
+            entries = [e.split("=") for e in text.rstrip("!").split(":", 1)[1].split(",")]
+            data = {"n" + a: int(b) - SHIFT for a, b in entries}
+            assert len(data) == len(entries)
+            self.spawn_op = self.op_index
+            self.op_index += len(entries) - 1        # counted as one `disp` op per entry
+            if other:
+                self.other_tasks.append(self.loop.create_task(self.em.load(data)))
+            else:
+                self.em.load_nowait(data)
         elif k == "get":
             other = w[2].endswith("!")
             tt = w[2].rstrip("!")
@@ -175,6 +226,15 @@ class Impl:
         return "w" + ("-" if r["timeout"] is None else fmt_t(r["t0"] + r["timeout"]))
 
     def snap(self):
+        # the non-waiting getters: get_nowait (with / without default) and attribute access read the stored value
+        missing = object()
+        for n in range(3):
+            name = f"n{n}"
+            have = self.em.data.get(name, missing)
+            a, b = self.em.get_nowait(name, missing), getattr(self.em, name, missing)
+            c = self.em.get_nowait(name)
+            if a is not have or b is not have or c is not (None if have is missing else have):
+                self.anomalies.append(f"get_nowait / attribute access of {name} do not return the stored value")
         data = []
         for n in range(3):
             v = _up(self.em.data.get(f"n{n}"))
@@ -212,12 +272,13 @@ class Impl:
     def close(self):
         for fut, _ in self.pending.values():
             fut.cancel()
-        for t in self.dtasks + [r["task"] for r in self.waiters]:
+        for t in self.dtasks + [r["task"] for r in self.waiters] + self.other_tasks:
             t.cancel()
         self.loop.settle()
-        for t in self.dtasks + [r["task"] for r in self.waiters]:
+        for t in self.dtasks + [r["task"] for r in self.waiters] + self.other_tasks:
             if t.done() and not t.cancelled():
                 t.exception()
+        self.loop.set_task_factory(None)
 
 
 def fmt_t(x):
@@ -239,8 +300,19 @@ def parse_scripts(text):
     return out
 
 
+def expand(ops):
+    """a load is one dispatch op per entry"""
+    out = []
+    for o in ops:
+        if o.startswith("load:"):
+            out.extend("disp:%s:%s" % tuple(e.split("=")) for e in o.rstrip("!").split(":", 1)[1].split(","))
+        else:
+            out.append(o)
+    return out
+
+
 def lean_ops(ops):
-    return [re.sub(r"[!~]$", "", o) for o in ops]
+    return [re.sub(r"[!~^]$", "", o) for o in expand(ops)]
 
 
 def strip_model(ans):
@@ -285,11 +357,18 @@ def run_random(loop, rng, n_ops, names=3):
             once_next += cb == once_next
             do(f"once:{n}:{cb}{'~' if rng.random() < 0.2 else ''}")
         elif r < 0.33:
-            do(f"unsub:{n}:{rng.randrange(6)}")
+            do(f"unsub:{n}:{rng.randrange(6)}{'^' if rng.random() < 0.3 else ''}")
         elif r < 0.39 and im.once:
             do(f"unsubo:{n}:{rng.choice(sorted(im.once))}")
-        elif r < 0.57:
+        elif r < 0.53:
             do(f"disp:{n}:{rng.randrange(1, 8)}{'!' if rng.random() < 0.4 else ''}")
+        elif r < 0.57:
+            if dirty:
+                do("settle")
+            ns = rng.sample(range(names), rng.randint(1, names))
+            do("load:" + ",".join(f"{a}={rng.randrange(1, 8)}" for a in ns) + ("!" if rng.random() < 0.5 else ""))
+            do("settle")
+            continue
         elif r < 0.67:
             to = rng.choice(["-", "0", "0", "1", "3", "3", "5", "9"])
             do(f"get:{n}:{to}{'!' if rng.random() < 0.4 else ''}")
@@ -354,7 +433,7 @@ def replay_history(loop, scripts, ops):
 # ---------------------------------------------------------------- property-level checks on the implementation
 def spec_checks(scripts, ops, im):
     """predicates of the statement that can be read off the implementation's observation alone"""
-    ops = [o.rstrip("~") for o in ops]
+    ops = [o.rstrip("~^") for o in expand(ops)]
     bad = []
     n_once, n_plain = {}, {}
     for o in ops:
@@ -460,7 +539,9 @@ def check(res, label, scripts, ops, im, ans, judge):
     res.count("dispatches:%s" % (len(im.dtasks) if len(im.dtasks) < 4 else "4+"))
     res.count("ops:%s" % ("<=6" if len(ops) <= 12 else "<=15" if len(ops) <= 30 else ">15"))
     for o in ops:
-        res.count("op:" + o.split(":")[0] + ("!" if o.endswith("!") else ""))
+        res.count("op:" + o.split(":")[0] + ("!" if o.endswith("!") else "~" if o.endswith("~") else "^" if o.endswith("^") else ""))
+        if o.startswith("load"):
+            res.count("load entries:%d" % (o.count("=")))
     overlap = max((len(re.findall(r"s\d+", s.split("/")[3])) for s in im.snaps), default=0)
     res.count("max suspended dispatches:%d" % min(overlap, 4))
     for r in im.waiters:
@@ -484,6 +565,225 @@ def check(res, label, scripts, ops, im, ans, judge):
         res.sample(dict(label=label, case=text, log=im.log, last=im.snaps[-1] if im.snaps else ""))
 
 
+# ---------------------------------------------------------------- subscribers registered through filter factories
+FALSY_RETS = ["cn0", "cb0", "cs-", "cl-"]
+
+
+def ret_fn(ret):
+    """the scripted callback result: k None | a<c> number + c/16 (None for anything that is not a number) | c<val> a fixed value"""
+    if ret == "k":
+        return lambda v: None
+    if ret[0] == "a":
+        c = int(ret[1:])
+        return lambda v: (v + c / 16) if isinstance(v, (int, float)) and not isinstance(v, bool) else None
+    val = F.py_value(ret[1:], False, None)
+    return lambda v: (list(val) if isinstance(val, list) else val)
+
+
+def gen_ret(rng, numeric_only=False):
+    r = rng.random()
+    if r < 0.25:
+        return "k"
+    if r < 0.75:
+        return "a%d" % rng.choice([16, 16, -16, 160, 1, -1, 32, 0])
+    return rng.choice(FALSY_RETS[:2] if numeric_only else FALSY_RETS)
+
+
+def gen_fexpr(rng):
+    base = lambda: F.gen_base(rng, rng.choice(["oc", "oc", "db", "th", "de", "ag", "cu"]))  # noqa: E731
+    r = rng.random()
+    if r < 0.6:
+        return base()
+    if r < 0.9:
+        return base() + ">" + base()
+    return base() + ">" + base() + ">" + base()
+
+
+def gen_num_calls(rng, n):
+    vals, _ = F.gen_nums(rng, n)
+    times = F.gen_times(rng, n, 0)
+    return [(t, v, i) for t, (v, i) in zip(times, vals)]
+
+
+def gen_fr(rng):
+    flt = gen_fexpr(rng)
+    while flt.count(">") > 1:
+        flt = gen_fexpr(rng)
+    return ("fr", flt, gen_ret(rng), gen_num_calls(rng, rng.randint(1, 10)))
+
+
+def gen_chain(rng):
+    subs = []
+    for _ in range(rng.choice([1, 2, 2, 3, 4])):
+        f = gen_fexpr(rng)
+        while f.count(">") > 1:
+            f = gen_fexpr(rng)
+        subs.append(f)
+    has_ag = any("ag" in f for f in subs)
+    rets = [gen_ret(rng, numeric_only=has_ag) for _ in subs]
+    if rng.random() < 0.5:
+        rets[0] = rng.choice(["a16", "cn0", "cb0", "a-16"])     # the first subscriber replaces the value
+    return ("chain", list(zip(subs, rets)), gen_num_calls(rng, rng.randint(1, 8)))
+
+
+def fcase_text(c):
+    if c[0] == "fr":
+        return " ".join(["fr", c[1], c[2]] + [f"{t}@{v}{'i' if i else ''}" for t, v, i in c[3]])
+    return " ".join(["chain", "+".join(f"{f}/{r}" for f, r in c[1]) or "-"] + [f"{t}@{v}{'i' if i else ''}" for t, v, i in c[2]])
+
+
+def parse_fcase(text):
+    w = text.split()
+
+    def calls(ws):
+        out = []
+        for c in ws:
+            t, v = c.split("@")
+            out.append((int(t), v.rstrip("i"), v.endswith("i")))
+        return out
+
+    if w[0] == "fr":
+        return ("fr", w[1], w[2], calls(w[3:]))
+    subs = [] if w[1] == "-" else [tuple(x.split("/")) for x in w[1].split("+")]
+    return ("chain", subs, calls(w[2:]))
+
+
+def lean_fexpr(flt):
+    return F.lean_filter(flt, 0)
+
+
+def lean_fcase(c):
+    if c[0] == "fr":
+        return " ".join(["c13fr", lean_fexpr(c[1]), c[2]] + [f"{t}@{v}" for t, v, _ in c[3]])
+    return " ".join(["c13chain", "+".join(f"{lean_fexpr(f)}/{r}" for f, r in c[1]) or "-"] + [f"{t}@{v}" for t, v, _ in c[2]])
+
+
+async def run_fr(c):
+    """-> per call (what reached the callback or None, what the callback returned, what the filter call returned / raised)"""
+    _, flt, ret, calls = c
+    fn = ret_fn(ret)
+    seen = []
+
+    async def cb(v):
+        r = fn(v)
+        seen.append((F.enc_value(v), r))
+        return r
+
+    F.Clock.t = 0.0
+    f = F.build_chain(flt, cb)
+    rows = []
+    for t, v, as_int in calls:
+        F.Clock.t = t / F.TICK
+        del seen[:]
+        try:
+            got = await f(F.py_value(v, as_int, None))
+            rows.append((list(seen), got, None))
+        except Exception as e:  # noqa: BLE001
+            rows.append((list(seen), None, type(e).__name__))
+    return rows
+
+
+async def run_chain(c):
+    """-> per dispatch (per subscriber: awaited-with text or None, its result), stored value, get() result"""
+    _, subs, calls = c
+    em = EventManager()
+    cur = {}
+    F.Clock.t = 0.0
+    for k, (flt, ret) in enumerate(subs):
+        fn = ret_fn(ret)
+
+        async def cb(v, k=k, fn=fn):
+            r = fn(v)
+            cur.setdefault(k, []).append((F.enc_value(v), r))
+            return r
+
+        em.subscribe("x", F.build_chain(flt, cb))
+    rows = []
+    for t, v, as_int in calls:
+        F.Clock.t = t / F.TICK
+        cur.clear()
+        x = F.py_value(v, as_int, None)
+        err = None
+        try:
+            await em.dispatch("x", x)
+            got = await em.get("x", timeout=0)
+        except Exception as e:  # noqa: BLE001
+            err, got = type(e).__name__, None
+        rows.append((dict(cur), x, em.data.get("x"), got, err))
+    return rows
+
+
+def same_value(a, b):
+    return type(a) is type(b) and a == b or (isinstance(a, (int, float)) and isinstance(b, (int, float))
+                                              and not isinstance(a, bool) and not isinstance(b, bool) and a == b)
+
+
+def check_filtered(res, cases):
+    clock_patch = time.monotonic
+    time.monotonic = lambda: F.Clock.t
+    try:
+        async def all_impl():
+            return [await (run_fr(c) if c[0] == "fr" else run_chain(c)) for c in cases]
+
+        impl = vloop.run(all_impl())
+    finally:
+        time.monotonic = clock_patch
+    answers = driver_batch(lean_fcase(c) for c in cases)
+    for c, rows, ans in zip(cases, impl, answers):
+        text = fcase_text(c)
+        inp = dict(case=text, label=c[0])
+        model = [] if ans == "." else ans.split(";")
+        exprs = [c[1]] if c[0] == "fr" else [f for f, _ in c[1]]
+        res.count("label:filtered-" + c[0])
+        for f in exprs:
+            res.count("subscribed through: " + ">".join(st.split(":")[0] for st in f.split(">")))
+        if ans == "bad-op":
+            res.fail("corr", inp, "parsable", ans, "driver rejected the request")
+            continue
+        bad, obs = [], []
+        if c[0] == "fr":
+            res.case(text, len(rows) >= 2 and any(r[0] for r in rows) and any(not r[0] for r in rows))
+            for i, (seen, got, err) in enumerate(rows):
+                if err:
+                    obs.append("!=N")
+                    continue
+                if len(seen) > 1:
+                    bad.append(f"call {i}: the wrapped callback was awaited {len(seen)} times")
+                want = seen[0][1] if seen else None
+                res.count("filter call: " + ("not delivered" if not seen else "delivered, callback returns None" if want is None else
+                                             "delivered, callback returns a falsy value" if not want else "delivered, callback returns a value"))
+                if not (got is None and want is None) and not same_value(got, want):
+                    bad.append(f"call {i}: the wrapped callback returned {want!r}, the filter call returned {got!r}")
+                obs.append(("d" + seen[0][0] if seen else "-") + "=" + F.enc_value(got))
+        else:
+            res.case(text, len(rows) >= 2 and len(c[1]) >= 2)
+            for i, (cur, x, stored, got, err) in enumerate(rows):
+                if err:
+                    bad.append(f"dispatch {i} raised {err}")
+                    obs.append("!")
+                    continue
+                v = x
+                for k in range(len(c[1])):
+                    for txt, r in cur.get(k, [])[:1]:
+                        if r is not None:
+                            v = r
+                        res.count("filtered subscriber: " + ("returns None" if r is None else "returns a falsy value" if not r else "returns a value"))
+                    if len(cur.get(k, [])) > 1:
+                        bad.append(f"dispatch {i}: subscriber {k} awaited {len(cur[k])} times")
+                if not same_value(stored, v):
+                    bad.append(f"dispatch {i}: the value after the awaited callbacks' results is {v!r}, stored {stored!r}")
+                if not same_value(got, stored) or got is not stored:
+                    bad.append(f"dispatch {i}: get() returned {got!r}, stored {stored!r}")
+                obs.append(",".join(("d" + cur[k][0][0]) if k in cur else "-" for k in range(len(c[1]))) + "=" + F.enc_value(stored)
+                           if c[1] else "-=" + F.enc_value(stored))
+        if bad:
+            res.fail("spec", inp, "a delivering filter call returns what the wrapped callback returned; the dispatch chain threads it; the final value is stored",
+                     bad, "; ".join(bad)[:300])
+        elif obs != model:
+            k = next((i for i, (a, b) in enumerate(zip(model, obs)) if a != b), min(len(model), len(obs)))
+            res.fail("corr", inp, model[k:k + 1], obs[k:k + 1], f"filter call result / filtered dispatch chain: model and implementation differ at #{k}")
+
+
 class LoopCtx:
     def __enter__(self):
         self.loop = vloop.new_loop()
@@ -504,15 +804,19 @@ def run(ctx):
     rng = random.Random(ctx["seed"] * 7919 + 13)
     res = Result("C13")
     quick = ctx["tier"] == "quick"
-    res.rule = ("histories generated online against the real EventManager: subscribe / subscribe_once / unsubscribe (by function, by the "
-                "once-wrapper) / dispatch_nowait / task awaiting dispatch / get / wait_for (timeouts 1..9 ticks or none) on 3 names, 18 scripted "
+    res.rule = ("histories generated online against the real EventManager: subscribe / subscribe_once / unsubscribe (by function, by a new filter object around it, by the "
+                "once-wrapper) / dispatch_nowait / task awaiting dispatch / load_nowait / task awaiting load (1..3 names) / get / wait_for / get_nowait and attribute access at every snapshot (timeouts 1..9 ticks or none) on 3 names, 18 scripted "
                 "callback functions (0..2 suspensions, return None or value+c), the harness choosing which suspended callback resumes, when the "
                 "loop runs (single op or a batch of ops before it runs) and when the clock moves; plus (thorough) every word of length <= 5 over a "
-                "10-op alphabet on one name. distinct = distinct history text; non-trivial = >= 2 dispatches, >= 1 resumed suspension, >= 2 awaited callbacks")
+                "10-op alphabet on one name; plus subscribers registered THROUGH every filter factory and chains of two / three (on_change, debounce, throttle, "
+                "delta, aggregate, custom) whose wrapped callback returns None / value+c / a falsy replacement: what each filter call returns, and sequential "
+                "dispatches through 1..4 such subscribers followed by get(). distinct = distinct history text; non-trivial = >= 2 dispatches, >= 1 resumed suspension, >= 2 awaited callbacks")
     runs = []
     with LoopCtx() as loop:
         for fn, ln in load_corpus("C13"):
             w = ln.split()
+            if w[0] in ("fr", "chain"):
+                continue
             scripts = parse_scripts(w[0])
             im = replay_history(loop, scripts, w[1:])
             im.close()
@@ -539,6 +843,11 @@ def run(ctx):
             res.fail("corr", dict(case=scripts_text(scripts) + " " + " ".join(ops)), "parsable", ans, "driver rejected the request")
             continue
         check(res, label, scripts, ops, im, ans, judge)
+    if not ctx.get("max_cases"):
+        fcases = [parse_fcase(ln) for _, ln in load_corpus("C13") if ln.split()[0] in ("fr", "chain")]
+        fcases += [gen_fr(rng) for _ in range(1500 if quick else 30000)]
+        fcases += [gen_chain(rng) for _ in range(1500 if quick else 30000)]
+        check_filtered(res, fcases)
     res.exhaustive = False
     if not quick:
         res.extra["enumerated_alphabet"] = ALPHABET
@@ -553,6 +862,9 @@ def replay(ctx):
     res = Result("C13")
     res.rule = "replay of one recorded history"
     w = f["input"]["case"].split()
+    if w[0] in ("fr", "chain"):
+        check_filtered(res, [parse_fcase(f["input"]["case"])])
+        return res
     scripts = parse_scripts(w[0])
     with LoopCtx() as loop:
         try:
